@@ -136,6 +136,14 @@ func c19Scenarios(thorough bool) (out []*hx.Scenario, bounds []int) {
 	for _, kids := range [][]int{{0, 1}, {0, 3, 4}, {2, 5, 6}, {7, 8}, {1, 9, 10}, {0, 2}, {2, 1, 4}, {2, 3}} {
 		add("conc", concScenario(concCfg{Kids: kids}), 1)
 	}
+	// every pair of statement kinds that touches the local store or a local receiver
+	for _, a := range []int{0, 2, 11, 12, 13} {
+		for b := 0; b < len(concKinds); b++ {
+			if b != a && !(b < a && (b == 0 || b == 2 || b >= 11)) {
+				add("conc", concScenario(concCfg{Kids: []int{a, b}}), 1)
+			}
+		}
+	}
 	add("conc", concScenario(concCfg{Kids: []int{0, 5}, Two: true}), 1)
 	add("conc", concScenario(concCfg{Kids: []int{0, 3}, InFor: true}), 1)
 	// pool requests
@@ -208,7 +216,7 @@ func init() {
 		BudgetQuick: 170 * time.Second,
 		BudgetThor:  30 * time.Minute,
 		Kind:        "schedules",
-		Rule: "happens-before race monitor (vector clocks; edges: unlock->lock, RUnlock->Lock, WaitGroup.Done->Wait, go statement) over the hooked shared-memory accesses of every explored execution of: all goroutine-spawning engine models (4 rules, one failing, called twice), conc blocks, pool request scenarios (3 clients / reuse / panicking request / conservation phase) through 5 execute methods, every update kind || every pool execution model, update from inside a rule, every management call (5 updates incl. clear, SetExecModel, 5 queries) || two executions, and every management call || every update; " +
+		Rule: "happens-before race monitor (vector clocks; edges: unlock->lock, RUnlock->Lock, WaitGroup.Done->Wait, go statement) over the hooked shared-memory accesses of every explored execution of: all goroutine-spawning engine models (4 rules, one failing, called twice), conc blocks (incl. every pair of statement kinds in which one touches the local store or calls a method of an object held in a local), pool request scenarios (3 clients / reuse / panicking request / conservation phase) through 5 execute methods, every update kind || every pool execution model, update from inside a rule, every management call (5 updates incl. clear, SetExecModel, 5 queries) || two executions, and every management call || every update; " +
 			"each scenario explored under every schedule with <=2 (thorough 3) deviations from the default scheduler (delay bounding), then re-explored with every racy access site turned into a scheduling point until no new racy site appears. Observer calls create NO happens-before edges. " + fmt.Sprint("Oracle: no two conflicting accesses unordered by happens-before"),
 		Assume: []string{"accesses the instrumenter does not hook (slice elements, state reached only through reflect) are seen only by the free-running `go test -race`-style cross-check, not by this check", "sequential consistency for the explored control flow"},
 		Run: func(c *hx.Ctx) {
